@@ -197,9 +197,12 @@ class C05(Check):
             if pf["meta"].get(k) != v.encode():
                 raise Violation("layout:metadata", f"metadata {k!r} stored as {pf['meta'].get(k)!r}")
         try:
-            concase.expected_records(node, table, case["records"], pf)
+            exp = concase.expected_records(node, table, case["records"], pf)
         except (B.RefError, B.NotConforming) as e:
             raise Violation("layout:records", f"independent decoding of the blocks does not give the written records: {e}; codec={case['codec']} schema={js!r:.300}")
+        # the block reader's view of fastavro's own file must tile it exactly as the independent parser sees it
+        blocks = guard("block-read-own-file", lambda: list(fastavro.block_reader(io.BytesIO(data))))
+        self._check_tiling(blocks, [(b["offset"], b["size"], b["count"]) for b in pf["blocks"]], len(data), exp, f"own file, codec={case['codec']} interval={case['sync_interval']}")
         if len(pf["blocks"]) >= 2:
             labels.add("fa2ref:blocks>=2")
         if case["codec"] != "null":
